@@ -730,3 +730,87 @@ Proof.
     + constructor; [|assumption]. intros Hin. rewrite (Hnew s Hin) in N2. discriminate N2.
     + intros s' [<-|Hin]; [assumption | apply Hold; assumption].
 Qed.
+
+(* ---------- the set of jobs at the end = what existed before + what was created ---------- *)
+Lemma anext_counts : forall o a, o <> CreateSearch -> (forall s, o <> CreateJob s) ->
+  a_ns (anext o a) = a_ns a /\ forall s, a_nj (anext o a) s = a_nj a s.
+Proof.
+  intros o a H1 H2. destruct o; cbn [anext]; try (split; reflexivity).
+  - contradiction.
+  - exfalso. eapply H2. reflexivity.
+  - unfold a_store. destruct (a_jex a j); split; reflexivity.
+  - unfold a_store. destruct (a_jex a j); split; reflexivity.
+  - unfold a_store. destruct (a_jex a j); split; reflexivity.
+  - unfold a_store. destruct (a_jex a j); split; reflexivity.
+  - destruct (a_jex a j); [|split; reflexivity]. destruct (a_cell a (fst j) (snd j) K_META) as [[?|?]|]; split; reflexivity.
+  - destruct (a_sex a s); split; reflexivity.
+Qed.
+
+Lemma jex_step_iff : forall c o j, wf c ->
+  (a_jex (abs (fst (step c o))) j = true <-> a_jex (abs c) j = true \/ snd (step c o) = OJid j).
+Proof.
+  intros c o j Hwf. split.
+  2:{ intros [H|H]; [apply jex_mono; assumption | apply (created_job_new c o j Hwf H)]. }
+  intros H. destruct (step_refines_state c o Hwf) as [Hns [Hnj _]].
+  pose proof (step_refines_out c o Hwf) as Hout.
+  unfold a_jex, a_sex in *. rewrite Hns, Hnj in H.
+  destruct o;
+    try (match type of H with context [anext ?o0 _] =>
+           destruct (anext_counts o0 (abs c)) as [E1 E2]; [discriminate | intros; discriminate |] end;
+         rewrite E1, E2 in H; left; exact H).
+  - (* CreateSearch *) cbn [anext a_ns a_nj] in H. left.
+    apply andb_true_iff in H. destruct H as [H1 H2]. apply andb_true_iff. split; [|assumption].
+    apply in_range_spec in H1. apply in_range_spec.
+    assert (fst j <> Z.of_nat (a_ns (abs c))).
+    { intros E. rewrite E in H2. cbn [abs a_ns a_nj] in H2. rewrite (get_search_fresh c Hwf) in H2.
+      apply in_range_spec in H2. lia. }
+    lia.
+  - (* CreateJob *) cbn [anext out_ok] in H, Hout.
+    destruct (a_sex (abs c) s) eqn:Es.
+    + cbn [a_ns a_nj] in H. apply andb_true_iff in H. destruct H as [H1 H2].
+      destruct (fst j =? s) eqn:E.
+      * apply Z.eqb_eq in E. apply in_range_spec in H2.
+        destruct (Z.eq_dec (snd j) (Z.of_nat (a_nj (abs c) s))) as [Ep|Ep].
+        -- right. rewrite Hout. destruct j. cbn [fst snd] in *. subst. reflexivity.
+        -- left. apply andb_true_iff. split; [assumption|]. apply in_range_spec. rewrite E. lia.
+      * left. apply andb_true_iff. split; assumption.
+    + left. exact H.
+Qed.
+
+Theorem final_jobs_union : forall ops c j, wf c ->
+  (a_jex (abs (final c ops)) j = true <-> a_jex (abs c) j = true \/ In j (jids_of (outs c ops))).
+Proof.
+  induction ops as [|o t IH]; intros c j Hwf.
+  - unfold final, outs. cbn [run fst snd jids_of flat_map In]. tauto.
+  - rewrite final_cons, outs_cons, jids_of_cons. rewrite IH by (apply wf_step; assumption).
+    rewrite jex_step_iff by assumption. rewrite in_app_iff.
+    assert (Hx : snd (step c o) = OJid j <-> In j (match snd (step c o) with OJid j0 => [j0] | _ => [] end)).
+    { destruct (snd (step c o)); cbn [In]; split; intros Hh; try discriminate Hh; try tauto.
+      - inversion Hh. auto.
+      - destruct Hh as [->|[]]. reflexivity. }
+    tauto.
+Qed.
+
+(* ---------- the three micro steps of create_new_job, done without interruption, are the atomic step ---------- *)
+Lemma aset_aset : forall A k (a b : A) m, aset k b (aset k a m) = aset k b m.
+Proof.
+  induction m as [|[k' v'] t IH]; cbn [aset].
+  - rewrite Z.eqb_refl. reflexivity.
+  - destruct (k =? k') eqn:E; cbn [aset]; rewrite ?Z.eqb_refl, ?E; [reflexivity | rewrite IH; reflexivity].
+Qed.
+
+Lemma micro_atomic : forall c s sr, get_search c s = Some sr ->
+  let r1 := mstep s c None MRead in
+  let r2 := mstep s (fst (fst r1)) (snd (fst r1)) MWrite in
+  let r3 := mstep s (fst (fst r2)) (snd (fst r2)) MInit in
+  fst (fst r3) = fst (step c (CreateJob s)) /\ option_map OJid (snd r3) = Some (snd (step c (CreateJob s))).
+Proof.
+  intros c s sr Hs.
+  assert (E1 : mstep s c None MRead = (c, Some (jcount sr), None)) by (unfold mstep; rewrite Hs; reflexivity).
+  assert (E2 : mstep s c (Some (jcount sr)) MWrite
+               = (put_search c s (mkSearch (S (jcount sr)) (jobs sr) (svals sr)), Some (jcount sr), None))
+    by (unfold mstep; rewrite Hs; reflexivity).
+  cbv zeta. rewrite E1. cbn [fst snd]. rewrite E2. cbn [fst snd].
+  unfold mstep. rewrite get_search_put, Z.eqb_refl. cbn [step]. rewrite Hs. cbn [fst snd jcount jobs svals option_map].
+  split; [|reflexivity]. unfold put_search. cbn [scount searches]. rewrite aset_aset. reflexivity.
+Qed.
